@@ -157,6 +157,12 @@ def cell_job(job):
         if cls == 'ec_priv':
             t = newtag(); r = call('C_GenerateKeyPair', s=s, mech=x.M('CKM_EC_KEY_PAIR_GEN'), pub=x.T({'CKA_EC_PARAMS': keymat.OID['p256'], 'CKA_LABEL': t + b'-pub', 'CKA_TOKEN': on_token, 'CKA_PRIVATE': False}), priv=x.T({'CKA_LABEL': t, 'CKA_TOKEN': on_token, 'CKA_PRIVATE': private}))
             judge('generate-pair(private half)', can_write(on_token, private) and can_write(on_token, False), r, new_tag=t, new_kind=kind)
+        if cls == 'ec_priv' and not private:      # the two halves of a pair placed differently: each half's CKA_TOKEN / CKA_PRIVATE decides on its own
+            for (ptok, ppriv, stok, spriv) in ((True, False, False, False), (False, False, True, False), (True, False, False, True), (False, False, False, True)):
+                t = newtag(); r = call('C_GenerateKeyPair', s=s, mech=x.M('CKM_EC_KEY_PAIR_GEN'), pub=x.T({'CKA_EC_PARAMS': keymat.OID['p256'], 'CKA_LABEL': t + b'-pub', 'CKA_TOKEN': ptok, 'CKA_PRIVATE': ppriv}), priv=x.T({'CKA_LABEL': t, 'CKA_TOKEN': stok, 'CKA_PRIVATE': spriv}))
+                allowed = can_write(ptok, ppriv) and can_write(stok, spriv)
+                judge(f'generate-pair(pub={"token" if ptok else "session"},priv={"token" if stok else "session"}{",private" if spriv else ""})', allowed, r, new_tag=t, new_kind=(stok, spriv))
+                created_tags[t + b'-pub'] = (allowed, r['rv'] == 0, 'generate-pair(public half of a mixed pair)', (ptok, ppriv))
         if cls == 'ec_pub':
             t = newtag(); r = call('C_GenerateKeyPair', s=s, mech=x.M('CKM_EC_KEY_PAIR_GEN'), pub=x.T({'CKA_EC_PARAMS': keymat.OID['p256'], 'CKA_LABEL': t, 'CKA_TOKEN': on_token, 'CKA_PRIVATE': private}), priv=x.T({'CKA_LABEL': t + b'-priv', 'CKA_TOKEN': False, 'CKA_PRIVATE': False}))
             judge('generate-pair(public half)', can_write(on_token, private), r, new_tag=t, new_kind=kind)
@@ -203,6 +209,48 @@ def cell_job(job):
     shutil.rmtree(d, ignore_errors=True)
     return part
 
+def two_process_scenarios(ctx, backend):
+    """A second process that never logs in keeps looking at the token while the user, in another process, replaces the newest PUBLIC object by a PRIVATE one:
+    whatever the store recycles (ids, files, cached attributes), the public process must get neither a handle to the private object nor its attributes, and cannot destroy it."""
+    ck = ctx.ck; d = ctx.dir('c01-2p-' + backend); W = O = None
+    try:
+        W = ctx.new_exec('asan', d, backend); assert W.call('C_Initialize', locking='os')['rv'] == 0
+        slot = W.call('C_GetSlotList', count=8)['slots'][-1]; assert W.call('C_InitToken', slot=slot, pin=SO.hex(), label=b'c01two'.hex())['rv'] == 0
+        sw = W.call('C_OpenSession', slot=slot)['h']; assert W.call('C_Login', s=sw, user=0, pin=SO.hex())['rv'] == 0 and W.call('C_InitPIN', s=sw, pin=USER.hex())['rv'] == 0 and W.call('C_Logout', s=sw)['rv'] == 0
+        assert W.call('C_Login', s=sw, user=1, pin=USER.hex())['rv'] == 0
+        O = ctx.new_exec('asan', d, backend, reuse_dir=True); assert O.call('C_Initialize', locking='os')['rv'] == 0
+        oslot = [sl for sl in O.call('C_GetSlotList', count=8)['slots'] if O.call('C_GetTokenInfo', slot=sl)['flags'] & ck.CKF_TOKEN_INITIALIZED][0]
+        so = O.call('C_OpenSession', slot=oslot)['h']          # RW public session, never logs in
+        keep = W.call('C_CreateObject', s=sw, tmpl=W.T({'CKA_CLASS': ck.CKO_DATA, 'CKA_TOKEN': True, 'CKA_PRIVATE': False, 'CKA_LABEL': b'keep-public', 'CKA_VALUE': b'k'})); assert keep['rv'] == 0
+        for rnd_no in range(6):
+            pub = W.call('C_CreateObject', s=sw, tmpl=W.T({'CKA_CLASS': ck.CKO_DATA, 'CKA_TOKEN': True, 'CKA_PRIVATE': False, 'CKA_LABEL': b'pub-%d' % rnd_no, 'CKA_VALUE': b'p' * 8})); assert pub['rv'] == 0
+            for h in O.findall(so, {})[1]: O.getattrs(so, h, ['CKA_LABEL', 'CKA_PRIVATE', 'CKA_VALUE'])        # the observer looks at everything (and caches what it likes)
+            assert W.call('C_DestroyObject', s=sw, o=pub['h'])['rv'] == 0
+            tag = b'PRIVATE-%d-' % rnd_no + bytes(range(65, 81)); cls = [ck.CKO_DATA, ck.CKO_SECRET_KEY][rnd_no % 2]
+            a = {'CKA_CLASS': cls, 'CKA_TOKEN': True, 'CKA_PRIVATE': True, 'CKA_LABEL': tag, 'CKA_VALUE': tag[::-1]}
+            if cls == ck.CKO_SECRET_KEY: a.update(CKA_KEY_TYPE=ck.CKK_GENERIC_SECRET, CKA_SENSITIVE=False, CKA_EXTRACTABLE=True)
+            prv = W.call('C_CreateObject', s=sw, tmpl=W.T(a)); assert prv['rv'] == 0
+            rvn, hs = O.findall(so, {})
+            for h in hs:
+                rvn2, v = O.getattrs(so, h, ['CKA_LABEL', 'CKA_PRIVATE', 'CKA_VALUE', 'CKA_CLASS'])
+                lab = v.get('CKA_LABEL')
+                if lab == b'keep-public': continue
+                # anything else the public process can see now must not be the user's private object: try what a curious process would try
+                rd = O.call('C_DestroyObject', s=so, o=h)
+                ctx.observe('public process found an unexpected object', {'label': lab and lab.decode('latin-1'), 'destroy': rd['rvname'], 'backend': backend}, cap=4)
+                if lab == tag or v.get('CKA_VALUE') == tag[::-1]: ctx.violation(f'C_GetAttributeValue|two-processes,{backend}|public-session|private-object-attributes-read', 'a process that never logged in read attributes of a private object created by another process', {'backend': backend, 'round': rnd_no})
+            back = W.findall(sw, {'CKA_LABEL': tag})[1]
+            if len(back) != 1:
+                ctx.violation(f'C_DestroyObject|two-processes,{backend}|public-session|private-object-destroyed-or-hidden', 'after a process that never logged in searched the token, the user\'s private object is gone', {'backend': backend, 'round': rnd_no, 'found': len(back)})
+            elif len(hs) > 1: ctx.violation(f'C_FindObjects|two-processes,{backend}|public-session|handle-returned', 'a process that never logged in was given a handle while only one public object exists (a private object was found)', {'backend': backend, 'round': rnd_no, 'n': len(hs)})
+            ctx.case(('two-process', backend, rnd_no), sample={'two_process_round': rnd_no, 'backend': backend, 'public_process_sees': len(hs)} if rnd_no == 0 else None)
+        for x in (W, O): x.call('C_Finalize'); x.close()
+        W = O = None
+    except AssertionError as e: ctx.inconc(f'two-process scenario setup failed ({backend}): {e!r}')
+    finally:
+        for x in (W, O):
+            if x is not None: x.kill()
+
 W = {'open': 5, 'close': 2, 'closeall': 1, 'login': 5, 'logout': 4, 'create': 7, 'destroy': 3, 'setattr': 3, 'find': 4, 'copy': 3, 'getattr': 4}
 def run(ctx):
     ctx.need('asan'); classes = ctx.q(CLASSES_Q, CLASSES_T); backends = ('file', 'db')
@@ -212,6 +260,7 @@ def run(ctx):
     ctx.extra['matrix'] = {'states': len(STATES), 'object_kinds': len(KINDS), 'classes': len(classes), 'backends': list(backends), 'exhaustive_over_listed_dimensions': not ctx.inconclusive}
     # positive-control rule: a refused cell is only as good as the same (kind, class, role) succeeding somewhere
     succeeded = set((k[1], k[2], k[3]) for k in ctx.distinct if isinstance(k, tuple) and len(k) == 4)
+    for b in backends: two_process_scenarios(ctx, b)
     run_walks(ctx, {'C01'}, ctx.q(300, 5000), ctx.q(50, 60), weights=W, backends=backends)
     ctx.rule = ('matrix: 5 session states x {token,session} x {private,public} x object class x entry-point role (find, get-attribute, get-size, set-attribute, copy as source / to token / to private, destroy, create, '
                 'generate key / pair halves, encrypt/decrypt/sign/verify init, digest-key, wrap as wrapping and as wrapped key, unwrap as unwrapping key and as result, derive as base key, second key and result); a forbidden cell must fail, leave every output '
